@@ -1093,8 +1093,17 @@ def op_bulk(ctx, prop, sysm, w, cache, famtag, global_repo, t, wrap):
             fail = False
     if fail:
         xrefs = [r for r in w.refs if r.owner.file == X]
-        kind = t.pick(["syntax", "dangling"] if xrefs else ["syntax"], "bulk-corruption")
-        if kind == "syntax":
+        kind = t.pick((["syntax", "dangling"] if xrefs else ["syntax"]) + ["modelproc", "objproc"], "bulk-corruption")
+        if kind in ("modelproc", "objproc"):
+            # a processor of the failing file raises: object processors need an object of the processed rule
+            if kind == "objproc" and not any(d.file == X for d in w.defs):
+                kind = "modelproc"
+            sysm.proc_exc = t.pick(["tx", "value", "app"], "bulk-processor-raises")
+            if kind == "objproc":
+                sysm.fail_objproc_for = X
+            else:
+                sysm.fail_modelproc_for = X
+        elif kind == "syntax":
             ents = [e for e in w.all_ents(w.files[X]) if e.kind != "inner"]
             if not ents:
                 fail = False
@@ -1123,7 +1132,8 @@ def op_bulk(ctx, prop, sysm, w, cache, famtag, global_repo, t, wrap):
         outcome = "error"
         err = dump_error(e)
     except Exception as e:
-        outcome = "crash"
+        own = kind in ("objproc", "modelproc") and str(e) == "injected" and not isinstance(e, TextXError)
+        outcome = "error" if own else "crash"
         err = dump_error(e)
     ctx.ev("bulk", outcome, kind)
     fclass = f"bulk/{kind}/{famtag}"
